@@ -129,6 +129,10 @@ def main():
     rng = random.Random(vlib.SEED)
     big = ["Expr2", "Stmt2", "Types3", "Fb2", "Sfc3", "Config3"] if tier == "quick" else ["Expr3", "Stmt3", "Types4", "Fb3", "Prog3", "Func3", "Sfc4", "Config4"]
     small = ["Expr1", "Stmt1", "Types2", "Fb1", "Sfc2", "Config2"]
+    lit_pool = ThreadPoolExecutor(max_workers=1)
+    lit_cfgs = ["int", "real", "dur", "time", "text"]
+    lit_future = lit_pool.submit(lambda: [vlib.tlc_check("Literal.tla", "MC_Literal_%s.cfg" % g, workers=2, timeout=3600,
+                                                         name="c04_MC_Literal_" + g) for g in lit_cfgs])
     ds_big = gramcheck.derivations(big, cov)
     ds_small = gramcheck.derivations(small, cov)
     inputs = []      # (class label, text)
@@ -161,6 +165,23 @@ def main():
     for lit in LITS:
         for c in CONTEXTS:
             inputs.append(("literal", c.replace("{}", lit)))
+    # every literal of Literal.tla's structured space (the C09 corpus: boundary magnitudes, fractions of 1 - 20 digits,
+    # out-of-range fields ...) in a declaration and in an expression
+    for r in lit_future.result():
+        cov["states"] += r["states"]
+        cov["transitions"] += r["transitions"]
+        for x in r["replay"]:
+            if x.get("R") != "lit":
+                continue
+            t = "".join(x["text"])
+            if x["kind"] == "addr":
+                inputs.append(("spec-literal:addr", "PROGRAM p VAR x AT %s : BOOL; END_VAR END_PROGRAM" % t))
+            else:
+                inputs.append(("spec-literal:" + x["kind"], CONTEXTS[0].replace("{}", t)))
+                if x["kind"] in ("dur", "tod", "dt", "date", "real"):
+                    inputs.append(("spec-literal:" + x["kind"], CONTEXTS[2].replace("{}", t)))
+                if x["kind"] == "dur":
+                    inputs.append(("spec-literal:" + x["kind"], CONTEXTS[10].replace("{}", t)))
     nsoup = 2000 if tier == "quick" else 40000
     for i in range(nsoup):
         inputs.append(("soup", corpus.soup(rng, rng.randrange(1, 120))))
@@ -192,7 +213,7 @@ def main():
                     replay={"text": text, "cmd": "echo '{\"id\":0,\"text\":<text>,\"render\":true,\"analyze\":true}' | build/target/debug/vph parse"})
     # (5) through the real binary
     wd = vlib.workdir("c04_cli")
-    sample = [x for x in inputs if x[0] in ("bytes", "soup", "literal") or x[0].startswith("nesting")]
+    sample = [x for x in inputs if x[0] in ("bytes", "soup", "literal") or x[0].startswith("nesting") or x[0].startswith("spec-literal")]
     rng.shuffle(sample)
     sample = sample[:150 if tier == "quick" else 3000]
     files = []
